@@ -1,6 +1,8 @@
 // c20.cpp — correspondence harness for property C20 (the concurrency knob), linked with the REAL oneTBB (-ltbb).
 //
 // case   : "T <k> op_1 .. op_k [W]"   op = "S n"      parmcb::set_global_tbb_concurrency(n)   (the real function)
+//                                          "ST n"     the same call made by a helper thread that exits before the next operation
+//                                          "SK n"     the same call made by one worker thread that stays alive to the end of the case
 //                                          "C slot v" slot = new global_control(max_allowed_parallelism, v)
 //                                          "D slot"   delete slot
 //                                     W  = afterwards run a tbb::parallel_for and count the distinct threads that execute
@@ -25,6 +27,8 @@
 #include <signal.h>
 #include <thread>
 #include <mutex>
+#include <condition_variable>
+#include <functional>
 #include <chrono>
 #include <boost/thread.hpp>
 #include <parmcb/config.hpp>
@@ -51,7 +55,16 @@ struct Out {                      // unbuffered writer to the pipe: what was wri
     void put(const std::string &s) { size_t o = 0; while (o < s.size()) { ssize_t r = ::write(fd, s.data() + o, s.size() - o); if (r <= 0) _exit(3); o += (size_t) r; } }
 };
 
+// one long-lived worker thread executing posted calls (op SK): alive until the end of the case
+struct Worker {
+    std::thread th; std::mutex mu; std::condition_variable cv; std::function<void()> job; bool has = false, done = false, quit = false;
+    void start() { if (!th.joinable()) th = std::thread([this] { std::unique_lock<std::mutex> lk(mu); for (;;) { cv.wait(lk, [this] { return has || quit; }); if (quit) return; job(); has = false; done = true; cv.notify_all(); } }); }
+    void call(std::function<void()> f) { start(); std::unique_lock<std::mutex> lk(mu); job = f; has = true; done = false; cv.notify_all(); cv.wait(lk, [this] { return done; }); }
+    void stop() { if (th.joinable()) { { std::lock_guard<std::mutex> lk(mu); quit = true; } cv.notify_all(); th.join(); } }
+};
+
 static void run_case(Toks &t, Out &out) {
+    Worker worker;
     if (t.next() != "T") throw std::runtime_error("case: expected T");
     size_t k = t.next_sz();
     out.put("DEF " + std::to_string(active_now()) + " BHW " + std::to_string(boost::thread::hardware_concurrency()) + " A");
@@ -61,18 +74,25 @@ static void run_case(Toks &t, Out &out) {
         if (o == "S") {
             std::size_t n = (std::size_t) std::stoull(t.next());
             parmcb::set_global_tbb_concurrency(n);
+        } else if (o == "ST") {       // the call made by a helper thread that exits before the next operation
+            std::size_t n = (std::size_t) std::stoull(t.next());
+            std::thread h([n] { parmcb::set_global_tbb_concurrency(n); }); h.join();
+        } else if (o == "SK") {       // the call made by a worker thread that stays alive
+            std::size_t n = (std::size_t) std::stoull(t.next());
+            worker.call([n] { parmcb::set_global_tbb_concurrency(n); });
         } else if (o == "C") {
             size_t s = t.next_sz(); std::size_t v = (std::size_t) std::stoull(t.next());
-            if (slots.count(s)) { out.put(" BADSLOT"); for (auto &kv : slots) delete kv.second; return; }
+            if (slots.count(s)) { out.put(" BADSLOT"); for (auto &kv : slots) delete kv.second; worker.stop(); return; }
             slots[s] = new gc_t(gc_t::max_allowed_parallelism, v);
         } else if (o == "D") {
             size_t s = t.next_sz();
-            if (!slots.count(s)) { out.put(" BADSLOT"); for (auto &kv : slots) delete kv.second; return; }
+            if (!slots.count(s)) { out.put(" BADSLOT"); for (auto &kv : slots) delete kv.second; worker.stop(); return; }
             delete slots[s]; slots.erase(s);
         } else throw std::runtime_error("case: bad op " + o);
         out.put(" " + std::to_string(active_now()));
     }
     if (t.more() && t.next() == "W") out.put(" W " + std::to_string(count_threads()));
+    worker.stop();
     for (auto &kv : slots) delete kv.second;      // the harness's own controls (so that a leak report can only come from the library)
 }
 
